@@ -101,7 +101,6 @@ impl Value {
             Self::Paren(v, expl) => {
                 let v = v.do_evaluate(scope, !expl)?;
                 if *expl
-                    || v == css::Value::Null
                     || matches!(&v, css::Value::Literal(s) if s.is_css_fn())
                     || matches!(&v, css::Value::Call(name, _) if name == "var")
                 {
